@@ -48,6 +48,6 @@ CK=$(VERIF_RUN_DIR=/tmp/wt/sv-run-$PID-$V VERIF_EVIDENCE_DIR=/tmp/wt/sv-ev-$PID-
 CRC=${PIPESTATUS[0]}
 WHY=$(grep -E "violated|VERIF-VIOLATION|panic:|fatal error|DATA RACE|INFRA|STARVED|BUILD FAILED" /tmp/wt/sv-check-$PID-$V.err | head -1 | cut -c1-260)
 H=$(python3 -c "import hashlib;print(hashlib.sha1('$W'.encode()).hexdigest()[:10])")
-rm -f /verif/.build/*-$H.test /verif/.build/go.$H.mod /verif/.build/go.$H.sum
+rm -f /verif/.build/*-$H.test /verif/.build/go.$H.mod /verif/.build/go.$H.sum; [ -n "${VERIF_DIR:-}" ] && rm -f $VERIF_DIR/.build/*-$H.test $VERIF_DIR/.build/go.$H.mod $VERIF_DIR/.build/go.$H.sum
 rm -rf /tmp/wt/sv-ev-$PID-$V /tmp/wt/sv-replay-$PID-$V /tmp/wt/sv-run-$PID-$V
 echo "RESULT $PID/$V: demo_without=$([ $RC0 -eq 0 ] && echo pass || echo FAIL) demo_with=$([ $RC1 -ne 0 ] && echo fails || echo PASSES) $SUITE_RES check=$([ -n "$CK" ] && echo DETECTED || ([ $CRC -eq 2 ] && echo INFRA-ERROR || echo missed)) :: $WHY"
